@@ -102,6 +102,16 @@ static void jitjacobian_case(Toks& tk, Out& out, std::size_t ncells, std::size_t
   SM jac = micm::BuildJacobian<SM>(nz, ncells, nspec);
   try
   {
+    // the generated function bakes the flat ids in: it must follow the last matrix given, a previous call with a
+    // denser pattern must leave no trace
+    {
+      auto ob = SM::Create(nspec).SetNumberOfBlocks(ncells);
+      for (std::size_t i = 0; i < nspec; ++i)
+        for (std::size_t j = 0; j < nspec; ++j)
+          ob = ob.WithElement(i, j);
+      SM other(ob);
+      jps->SetJacobianFlatIds(other);
+    }
     jps->SetJacobianFlatIds(jac);
     ps->SetJacobianFlatIds(jac);
   }
